@@ -13,7 +13,12 @@ import time
 VERIF = os.path.dirname(os.path.dirname(os.path.abspath(__file__)))
 REPO = os.environ.get("VERIF_REPO", "/repo")
 BUILD = os.path.join(VERIF, "build")
-BIN = os.path.join(BUILD, "bin")
+# binaries built against the tree under test live in a directory of their own per VERIF_REPO: a run on a scratch/mutated
+# tree (seeded/runall.py, mutants/) must never exec, or leave behind, binaries another run uses (audit L2).
+# The model drivers (<d>_model) do not depend on the tree: they are built once in build/bin and linked into the others.
+BIN0 = os.path.join(BUILD, "bin")
+REPO_TAG = "" if os.path.realpath(REPO) == "/repo" else hashlib.sha1(os.path.realpath(REPO).encode()).hexdigest()[:10]
+BIN = BIN0 if not REPO_TAG else os.path.join(BUILD, "bin-" + REPO_TAG)
 COQ = os.path.join(VERIF, "coq")
 NPROC = os.cpu_count() or 4
 
@@ -29,15 +34,44 @@ GOENV.update({
 GO = "go1.26"
 
 FORBIDDEN = re.compile(
-    r"\b(Admitted|admit|Axiom|Axioms|Parameter|Parameters|Conjecture|Conjectures|"
-    r"Admit Obligations|bypass_check|native_compute)\b|Unset Guard Checking|"
-    r"Unset Positivity Checking|Unset Universe Checking|type-in-type|impredicative-set")
+    r"\b(Admitted|admit|give_up|Axiom|Axioms|Parameter|Parameters|Conjecture|Conjectures|"
+    r"Admit Obligations|Obligation|Obligations|bypass_check|native_compute|native_cast_no_check|Program|Equations)\b|"
+    r"Unset\s+Guard\s+Checking|Unset\s+Positivity\s+Checking|Unset\s+Universe\s+Checking|Unset\s+Kernel\s+Term\s+Sharing|"
+    r"type-in-type|impredicative-set|dependent\s+(?:destruction|induction|inversion|rewrite)|"
+    # extraction: nothing but `Require Extraction`, `Require ExtrOcamlBasic`, `Extraction Language`, `Extraction "file" names`
+    r"Extract\s+(?:Inlined\s+)?Constant|Extract\s+Inductive|Extraction\s+Implicit|Extraction\s+Inline|Extraction\s+NoInline|"
+    r"\bExtr(?:Ocaml|OCaml|Haskell)(?!Basic\b)\w*|\bExtrHaskell\w*|"
+    # declarations that add to the trusted base without being called Axiom
+    r"(?:^|\.\s)\s*(?:(?:Local|Global|Polymorphic|Monomorphic|Private|#\[[^\]]*\])\s+)*"
+    r"(?:Primitive|Register|Declare\s+ML\s+Module|Declare\s+Instance|Load|Add\s+(?:Rec\s+)?LoadPath|Add\s+ML\s+Path)\b")
 
-# stdlib axioms that would be tolerated if a tactic pulled them in (none is expected)
+# the only sentences allowed in coq/extract/*.v
+EXTRACT_OK = re.compile(
+    r"^(?:Require\s+(?:Import\s+)?(?:Extraction|ExtrOcamlBasic)|From\s+(?:Coq|GS)\s+Require\s+Import\s+[\w\s]+|"
+    r"Extraction\s+Language\s+OCaml|Extraction\s+\"m_\w+\.ml\"[\s\w.']+)$")
+
+# stdlib axioms: tolerated ONLY when the claim (checks/claims/<Cxx>.json note) names them (HOWTO); none is used today
 ALLOWED_AXIOMS = {
     "functional_extensionality_dep", "JMeq_eq", "proof_irrelevance", "classic",
     "Eqdep.Eq_rect_eq.eq_rect_eq", "eq_rect_eq",
 }
+
+
+def axioms_not_allowed(pid, axioms):
+    """An axiom printed by Print Assumptions is accepted only if it is a known stdlib axiom AND the property's claim
+    note names it.  Returns the offending ones."""
+    try:
+        note = json.load(open(os.path.join(VERIF, "checks", "claims", pid + ".json"))).get("note", "")
+    except (OSError, ValueError):
+        note = ""
+    bad = []
+    for x in axioms:
+        short = x.split(".")[-1]
+        known = x in ALLOWED_AXIOMS or short in ALLOWED_AXIOMS
+        named = re.search(r"\b%s\b" % re.escape(short), note) is not None
+        if not (known and named):
+            bad.append(x)
+    return bad
 
 
 def sh(cmd, cwd=None, env=None, timeout=None, inp=None):
@@ -124,6 +158,27 @@ def coq_flags():
     return fl
 
 
+def parse_assumptions(out):
+    """Names listed by `Print Assumptions` in coqc's output.  A block is `Axioms:` followed by entries
+    `name : type` or `name` alone with the type on indented continuation lines; it ends at the next non-indented line
+    that is not an entry (`Closed under the global context`, another `Axioms:`, a message).  Returns (names, #blocks)."""
+    names, blocks, inside = [], 0, False
+    for l in out.splitlines():
+        if l.strip() in ("Axioms:", "Section Variables:"):
+            inside, blocks = True, blocks + 1
+            continue
+        if not inside:
+            continue
+        if l[:1] in (" ", "\t") or not l.strip():
+            continue
+        m = re.match(r"^([\w.']+)\s*(?::.*)?$", l)
+        if m and l.strip() != "Closed under the global context" and not l.startswith(("File ", "Warning", "Error")):
+            names.append(m.group(1))
+        else:
+            inside = False
+    return names, blocks
+
+
 def coq_assumptions(prop_file):
     """Re-check props/Cxx.v with coqc and parse the Print Assumptions output.
     Returns dict(theorems=[...], closed=n, axioms=[...], ok=bool, log=str)."""
@@ -134,42 +189,60 @@ def coq_assumptions(prop_file):
     examples = re.findall(r"^\s*Example\s+(\w+)", src, re.M)
     printed = re.findall(r"^\s*Print Assumptions\s+(\w+)", src, re.M)
     closed = out.count("Closed under the global context")
-    axioms = []
-    for m in re.finditer(r"^Axioms:\n((?:.+\n?)+?)(?=^\S|\Z)", out, re.M):
-        for l in m.group(1).splitlines():
-            mm = re.match(r"^([\w.]+)\s*:", l)
-            if mm:
-                axioms.append(mm.group(1))
-    # also catch single-line forms
-    for m in re.finditer(r"^([\w.]+)\s*:.*$", out, re.M):
-        pass
+    axioms, blocks = parse_assumptions(out)
     unprinted = [t for t in theorems if t not in printed]
     return {"ok": rc == 0, "theorems": theorems, "examples": examples, "printed": printed,
-            "closed": closed, "axioms": sorted(set(axioms)), "unprinted": unprinted, "log": out}
+            "closed": closed, "axioms": sorted(set(axioms)), "axiom_blocks": blocks, "unprinted": unprinted, "log": out}
+
+
+def strip_comments(txt):
+    prev = None
+    while prev != txt:       # innermost first, so nested comments go too
+        prev = txt
+        txt = re.sub(r"\(\*(?:(?!\(\*|\*\)).)*\*\)", lambda m: re.sub(r"[^\n]", " ", m.group(0)), txt, flags=re.S)
+    return txt
 
 
 def audit():
-    """Grep the development for forbidden declarations/flags.  Returns list of hits."""
+    """Grep the development for forbidden declarations/flags.  Returns list of hits.  Deliberately stricter than needed
+    (a word such as Program in an identifier-free position is a hit even where it would be harmless)."""
     hits = []
-    for f in glob.glob(os.path.join(COQ, "**", "*.v"), recursive=True):
-        txt = open(f).read()
-        # strip comments (non-nested is enough for our files; nested handled by loop)
-        prev = None
-        while prev != txt:
-            prev = txt
-            txt = re.sub(r"\(\*(?:(?!\(\*|\*\)).)*\*\)", " ", txt, flags=re.S)
-        for i, line in enumerate(txt.splitlines(), 1):
+    for f in sorted(glob.glob(os.path.join(COQ, "**", "*.v"), recursive=True)):
+        rel = os.path.relpath(f, VERIF)
+        txt = strip_comments(open(f).read())
+        # string literals cannot hold a command ("" is the escaped quote); blank them so that table entries such as
+        # "Load" in coq/gen/AccessTable.v are not hits
+        txt = re.sub(r'"(?:[^"]|"")*"', lambda m: '"' + re.sub(r"[^\n]", "_", m.group(0)[1:-1]) + '"', txt)
+        lines = txt.splitlines()
+        depth = 0
+        for i, line in enumerate(lines, 1):
             if FORBIDDEN.search(line):
-                hits.append("%s:%d: %s" % (os.path.relpath(f, VERIF), i, line.strip()))
-            if re.match(r"^\s*(Variable|Variables|Hypothesis|Hypotheses)\b", line):
-                # allowed only inside a Section: checked crudely by requiring a Section before it
-                before = "\n".join(txt.splitlines()[:i])
-                if before.count("Section ") <= before.count("\nEnd "):
-                    hits.append("%s:%d: %s (outside a section)" % (os.path.relpath(f, VERIF), i, line.strip()))
-    for f in ["_CoqProject"]:
-        txt = open(os.path.join(COQ, f)).read()
-        if re.search(r"type-in-type|impredicative-set|-vos|-vok", txt):
-            hits.append("%s: forbidden flag" % f)
+                hits.append("%s:%d: %s" % (rel, i, line.strip()))
+            if re.match(r"^\s*(?:Local\s+|Global\s+|#\[[^\]]*\]\s*)*(Variable|Variables|Hypothesis|Hypotheses|Context)\b", line):
+                # allowed only inside a Section
+                if depth + len(re.findall(r"(?:^|\.\s)\s*Section\s+\w+\s*\.", line)) <= 0:
+                    hits.append("%s:%d: %s (outside a section)" % (rel, i, line.strip()))
+            depth += len(re.findall(r"(?:^|\.\s)\s*Section\s+\w+\s*\.", line))
+            depth -= len(re.findall(r"(?:^|\.\s)\s*End\s+\w+\s*\.", line))
+            depth = max(depth, 0)   # (a Module's End is not told apart: Modules are not used; erring towards a hit)
+        if os.path.basename(os.path.dirname(f)) == "extract":
+            raw = strip_comments(open(f).read())
+            for sent in re.split(r"\.(?:\s+|$)", raw):
+                sent = " ".join(sent.split())
+                if sent and not EXTRACT_OK.match(sent):
+                    hits.append("%s: sentence not allowed in an extraction file: %s" % (rel, sent[:120]))
+    cp = os.path.join(COQ, "_CoqProject")
+    for line in open(cp):
+        line = line.strip()
+        if line and not re.match(r"^-Q (lib|model|proofs|props|gen) GS$", line) and not re.match(r"^[\w/]+\.v$", line):
+            hits.append("_CoqProject: line not allowed: %s" % line)
+    for extra in ("Makefile.local", "Makefile.local-late", "Makefile.coq.local"):
+        if os.path.exists(os.path.join(COQ, extra)):
+            hits.append("coq/%s exists (it could add flags such as -type-in-type, -noinit, -indices-matter)" % extra)
+    mc = os.path.join(COQ, "Makefile.conf")
+    if os.path.exists(mc):
+        for m in re.finditer(r"^(COQMF_OTHERFLAGS|COQMF_COQ_SRC_SUBDIRS_EXTRA|COQMF_CMDLINE_COQLIBS)[ \t]*=[ \t]*(\S.*)$", open(mc).read(), re.M):
+            hits.append("coq/Makefile.conf: %s = %s" % (m.group(1), m.group(2)))
     return hits
 
 
@@ -195,8 +268,15 @@ def ocaml_build(drivers):
         srcs = [os.path.join(COQ, f + "o") for f in coq_files() if f.startswith(("model/", "lib/"))]
         newest_vo = max([os.path.getmtime(s) for s in srcs if os.path.exists(s)] + [0])
         os.makedirs(BIN, exist_ok=True)
+        os.makedirs(BIN0, exist_ok=True)
         log = ""
         for d in drivers:
+            if BIN != BIN0:
+                link = os.path.join(BIN, d + "_model")
+                if not os.path.islink(link):
+                    if os.path.exists(link):
+                        os.unlink(link)
+                    os.symlink(os.path.join(BIN0, d + "_model"), link)
             ml = os.path.join(ex, "m_%s.ml" % d)
             exv = os.path.join(ex, d + ".v")
             if not os.path.exists(ml) or os.path.getmtime(ml) < max(newest_vo, os.path.getmtime(exv)):
@@ -205,7 +285,7 @@ def ocaml_build(drivers):
                 rc, out = sh(["timeout", "600", "coqc"] + fl + [d + ".v"], cwd=ex)
                 if rc != 0:
                     return False, "extraction failed for %s:\n%s" % (d, out)
-            exe = os.path.join(BIN, d + "_model")
+            exe = os.path.join(BIN0, d + "_model")
             deps = [ml, os.path.join(VERIF, "ocaml", "util.ml"), os.path.join(VERIF, "ocaml", d + ".ml")]
             if os.path.exists(exe) and all(os.path.getmtime(exe) >= os.path.getmtime(x) for x in deps):
                 continue
@@ -222,23 +302,168 @@ def ocaml_build(drivers):
         return True, log
 
 
+# --------------------------------------------------------------------------- extraction re-validation
+# DESIGN section 7 item 4 / 14.6: the differential and acceptance checks run the EXTRACTED model (OCaml).  On every run a
+# deterministic sample of the cases the drivers evaluated is re-evaluated by Coq's own VM (vm_compute, checked again by the
+# kernel at Qed) against the compiled .vo files, and must give the output the OCaml driver printed.  The OCaml side prints
+# `VMCASE` lines for the sampled cases (ocaml/util.ml vm_pick, env VM_SAMPLE=<stride>:<offset>); the per-driver printers of
+# the INPUT as a Coq term live next to each check (Python, independent of the driver's own parser).
+
+VMDIR = os.path.join(BUILD, "vmcheck")
+
+
+def vm_env(seed, stride):
+    """Environment for a model driver: sample one case in `stride`, offset derived from VERIF_SEED."""
+    e = dict(os.environ)
+    e["VM_SAMPLE"] = "%d:%d" % (max(1, stride), (seed * 2654435761) % max(1, stride))
+    return e
+
+
+def vm_thin(items, want, seed):
+    """Deterministic thinning of a list of sampled cases to at most `want` (keeps order)."""
+    if len(items) <= want:
+        return list(items)
+    k = -(-len(items) // want)
+    off = (seed * 40503) % k
+    return [x for i, x in enumerate(items) if i % k == off][:want]
+
+
+def coq_nlist(bs):
+    """bytes / list of ints -> Coq term of type list N"""
+    return "([" + "; ".join(str(int(b)) for b in bs) + "]%N)"
+
+
+def coq_hex(h):
+    return coq_nlist(bytes.fromhex(h))
+
+
+def coq_bool(b):
+    return "true" if b else "false"
+
+
+def coq_list(xs):
+    return "[" + "; ".join(xs) + "]"
+
+
+def vm_crosscheck(run, driver, module_imports, terms, expected, labels=None, preamble="", timeout=300, min_cases=1):
+    """Extraction re-validation.  terms[i]: Coq term evaluating the MODEL on sampled case i (input printed by the check);
+    expected[i]: Coq term of the output the extracted OCaml code produced for it.  Writes build/vmcheck/<pid>_<driver>_cases.v
+    (one `Lemma vm_i : term = expected. Proof. vm_compute. reflexivity. Qed.` per case), compiles it against the built
+    .vo files.  Any disagreement = violation `extraction-mismatch:<driver>` (no failing input: the trusted layer is wrong)."""
+    labels = labels or ["case %d" % i for i in range(len(terms))]
+    rec = run.coverage.setdefault("vm_crosscheck", {})
+    n = len(terms)
+    if n < min_cases or len(expected) != n:
+        rec[driver] = {"cases": n, "agree": 0}
+        run.violation("vmcheck-failed:" + driver, {"cases": n, "expected": len(expected)},
+                      "extraction re-validation of driver %s got %d sampled cases (needs >= %d): the tie between the Coq model "
+                      "and the extracted code was not checked" % (driver, n, min_cases), True)
+        return False
+    os.makedirs(VMDIR, exist_ok=True)
+    base = "%s_%s_cases" % (run.pid, re.sub(r"\W", "_", driver))
+    head = ["(* generated by checks/common.py vm_crosscheck for ./check %s %s, seed %d: %d sampled cases of driver %s;" % (
+                run.pid, run.tier, run.seed, n, driver),
+            "   left = the model evaluated by Coq's VM, right = what the extracted OCaml code printed *)",
+            "From Coq Require Import List NArith ZArith Bool.",
+            "From GS Require Import %s." % " ".join(module_imports),
+            "Import ListNotations."] + ([preamble] if preamble else [])
+    body = ["Lemma vm_%d : (%s) = (%s). Proof. vm_compute. reflexivity. Qed." % (i, t.replace("\n", " "), e.replace("\n", " "))
+            for i, (t, e) in enumerate(zip(terms, expected))]
+    path = os.path.join(VMDIR, base + ".v")
+    open(path, "w").write("\n".join(head + body) + "\n")
+    t0 = time.time()
+    with Lock("coq"):
+        rc, out = sh(["timeout", str(timeout), "coqc"] + coq_flags() + [path], cwd=COQ)
+    secs = round(time.time() - t0, 2)
+    rec[driver] = {"cases": n, "agree": n if rc == 0 else 0, "seconds": secs, "file": os.path.relpath(path, VERIF),
+                   "cmd": "cd coq && timeout %d coqc -Q lib GS -Q model GS ... ../%s" % (timeout, os.path.relpath(path, VERIF)),
+                   "sample": [{"case": labels[i], "model_term": terms[i][:300], "ocaml_output": expected[i][:300]}
+                              for i in range(min(2, n))]}
+    run.coverage["vm_crosschecked"] = run.coverage.get("vm_crosschecked", 0) + (n if rc == 0 else 0)
+    if rc == 0:
+        return True
+    # which cases?  second pass in diagnostic form (no Qed, every case attempted)
+    diag = ['Goal (%s) = (%s). first [ vm_compute; reflexivity | idtac "VMMISMATCH %d"; vm_compute; '
+            'match goal with |- ?a = _ => idtac "VMCOQ %d" a end ]. Abort.' % (t.replace("\n", " "), e.replace("\n", " "), i, i)
+            for i, (t, e) in enumerate(zip(terms, expected))]
+    dpath = os.path.join(VMDIR, base + "_diag.v")
+    open(dpath, "w").write("\n".join(head + diag) + "\n")
+    with Lock("coq"):
+        rc2, out2 = sh(["timeout", str(timeout), "coqc"] + coq_flags() + [dpath], cwd=COQ)
+    bad = [int(x) for x in re.findall(r"^VMMISMATCH (\d+)", out2, re.M)]
+    coqv = {int(m.group(1)): m.group(2).strip() for m in re.finditer(r"^VMCOQ (\d+) ((?:.|\n)*?)(?=^VM|\Z)", out2, re.M)}
+    rec[driver]["agree"] = n - len(bad) if bad and rc2 == 0 else 0
+    if bad:
+        cases = [{"case": labels[i], "model_term": terms[i], "ocaml_output": expected[i], "coq_vm_output": coqv.get(i, "")[:4000]}
+                 for i in bad[:10]]
+        run.violation("extraction-mismatch:" + driver, {"driver": driver, "file": path, "mismatching": len(bad), "cases": cases},
+                      "Coq's vm_compute evaluation of the model disagrees with the extracted OCaml code (driver %s) on %d of %d "
+                      "sampled cases, first: %s — the extraction/driver layer is wrong, the model is no longer tied to what the "
+                      "differential check runs" % (driver, len(bad), n, labels[bad[0]]), True)
+    else:
+        run.violation("vmcheck-failed:" + driver, {"driver": driver, "file": path, "rc": rc, "log_tail": (out + out2)[-3000:]},
+                      "extraction re-validation file for driver %s does not compile (rc=%d): %s" % (
+                          driver, rc, (out.strip().splitlines() or ["timeout"])[-1][:300]), True)
+    return False
+
+
+def vm_crosscheck_file(run, driver, path, n, timeout=600):
+    """The same for a driver that writes its own re-validation file (C07: ocaml/c07.ml --emit-coq prints one
+    `Goal <model run on the replayed labels> = <what it observed>. Proof. vm_compute. reflexivity. Qed.` per sampled execution)."""
+    rec = run.coverage.setdefault("vm_crosscheck", {})
+    if n < 1 or not os.path.exists(path):
+        rec[driver] = {"cases": 0, "agree": 0}
+        run.violation("vmcheck-failed:" + driver, {"cases": n, "file": path},
+                      "extraction re-validation of driver %s got no sampled case: the tie between the Coq model and the extracted "
+                      "code was not checked" % driver, True)
+        return False
+    t0 = time.time()
+    with Lock("coq"):
+        rc, out = sh(["timeout", str(timeout), "coqc"] + coq_flags() + [path], cwd=COQ)
+    rec[driver] = {"cases": n, "agree": n if rc == 0 else 0, "seconds": round(time.time() - t0, 2), "file": os.path.relpath(path, VERIF)}
+    run.coverage["vm_crosschecked"] = run.coverage.get("vm_crosschecked", 0) + (n if rc == 0 else 0)
+    if rc != 0:
+        m = re.search(r'line (\d+), characters', out)
+        bad = ""
+        if m:
+            ls = open(path).read().splitlines()
+            i = int(m.group(1)) - 1
+            bad = " ".join(ls[max(0, i - 1):i + 1])[:3000]
+        run.violation("extraction-mismatch:" + driver, {"driver": driver, "file": path, "log": out[-2000:], "failing_goal": bad,
+                                                        "theorem": "extracted OCaml model = Coq model (vm_compute re-evaluation of "
+                                                                   "sampled executions)"},
+                      "a sampled execution re-evaluated inside Coq (vm_compute) disagrees with what the extracted model driver %s "
+                      "computed" % driver, True)
+    return rc == 0
+
+
 # --------------------------------------------------------------------------- Go harness
 
+def go_modfile():
+    """The go.mod used for building the harness against VERIF_REPO is GENERATED into the build directory (go build
+    -modfile): harness/go.mod (tracked, replace => /repo) is never rewritten, so a run on a scratch tree leaves nothing
+    behind.  go.sum sits next to the generated file (the toolchain derives its name from -modfile)."""
+    hd = os.path.join(VERIF, "harness")
+    d = os.path.join(BUILD, "gomod" + ("-" + REPO_TAG if REPO_TAG else ""))
+    os.makedirs(d, exist_ok=True)
+    gm = open(os.path.join(hd, "go.mod")).read()
+    gm = re.sub(r"replace github.com/robbyt/go-supervisor => \S+", "replace github.com/robbyt/go-supervisor => %s" % REPO, gm)
+    mf = os.path.join(d, "go.mod")
+    if not os.path.exists(mf) or open(mf).read() != gm:
+        open(mf, "w").write(gm)
+    sh(["cp", os.path.join(REPO, "go.sum"), os.path.join(d, "go.sum")])
+    return mf
+
+
 def go_build(cmds, race=False):
-    """Build harness commands against /repo's working tree with the verif tag."""
-    with Lock("go"):
+    """Build harness commands against VERIF_REPO's working tree with the verif tag, into BIN."""
+    with Lock("go" + ("-" + REPO_TAG if REPO_TAG else "")):
         hd = os.path.join(VERIF, "harness")
-        sh(["cp", os.path.join(REPO, "go.sum"), os.path.join(hd, "go.sum")])
-        # the replace directive must point at REPO
-        gm = open(os.path.join(hd, "go.mod")).read()
-        want = "replace github.com/robbyt/go-supervisor => %s" % REPO
-        gm2 = re.sub(r"replace github.com/robbyt/go-supervisor => \S+", want, gm)
-        if gm2 != gm:
-            open(os.path.join(hd, "go.mod"), "w").write(gm2)
+        mf = go_modfile()
         os.makedirs(BIN, exist_ok=True)
         for c in cmds:
             out_name = c + ("_race" if race else "")
-            args = [GO, "build", "-tags", "verif"]
+            args = [GO, "build", "-modfile=" + mf, "-tags", "verif"]
             if race:
                 args.append("-race")
             args += ["-o", os.path.join(BIN, out_name), "./cmd/" + c]
@@ -246,6 +471,110 @@ def go_build(cmds, race=False):
             if rc != 0:
                 return False, "go build %s failed:\n%s" % (c, out)
         return True, ""
+
+
+# --------------------------------------------------------------------------- generated Coq inputs (coq/gen/*.v)
+# Tracked files, regenerated from the tree under test by the check that owns them (C07 RunnerShape, C08 FsmTable,
+# C17 AccessTable) BEFORE its Coq build.  install_gen replaces a file atomically and only when its content changed
+# (so make does not rebuild for nothing), keeping the previous content in build/gen.orig/.  At the end of a run with
+# VERIF_REPO != /repo the previous content is put back (restore_gen, called from ./check in a `finally`): a mutated
+# tree's table never stays behind (audit L1).  With VERIF_REPO == /repo the regenerated file IS the truth for the tree
+# and stays.  Leftovers of a killed run are restored at the start of the next one.
+
+GEN_ORIG = os.path.join(BUILD, "gen.orig")
+
+
+def install_gen(name, tmp_path):
+    """Move a freshly generated file into coq/gen/<name>.  Returns True when the content changed."""
+    dst = os.path.join(COQ, "gen", name)
+    with Lock("coq"):
+        os.makedirs(os.path.dirname(dst), exist_ok=True)
+        new = open(tmp_path, "rb").read()
+        old = open(dst, "rb").read() if os.path.exists(dst) else None
+        if old == new:
+            os.unlink(tmp_path)
+            return False
+        if REPO_TAG and old is not None:
+            os.makedirs(GEN_ORIG, exist_ok=True)
+            keep = os.path.join(GEN_ORIG, name)
+            if not os.path.exists(keep):          # the first (= committed / true for /repo) content wins
+                open(keep, "wb").write(old)
+        stage = dst + ".new"
+        open(stage, "wb").write(new)
+        os.replace(stage, dst)
+        os.unlink(tmp_path)
+        return True
+
+
+def gen_tmp(name):
+    os.makedirs(os.path.join(BUILD, "gen.tmp"), exist_ok=True)
+    return os.path.join(BUILD, "gen.tmp", "%d-%s" % (os.getpid(), name))
+
+
+def restore_gen():
+    """Put back every coq/gen file a run on a scratch tree replaced (also the leftovers of a killed run)."""
+    if not os.path.isdir(GEN_ORIG):
+        return []
+    done = []
+    with Lock("coq"):
+        for name in sorted(os.listdir(GEN_ORIG)):
+            keep = os.path.join(GEN_ORIG, name)
+            dst = os.path.join(COQ, "gen", name)
+            data = open(keep, "rb").read()
+            if not os.path.exists(dst) or open(dst, "rb").read() != data:
+                open(dst + ".new", "wb").write(data)
+                os.replace(dst + ".new", dst)
+                done.append(name)
+            os.unlink(keep)
+    return done
+
+
+# --------------------------------------------------------------------------- anchor drift (DESIGN 3.3)
+# harness/cmd/anchors digests the comment-stripped, position-free AST of every Go function a model section mirrors
+# (checks/anchors.json: file, functions, owning properties).  checks/anchors.lock.json holds the digests of the pinned tree
+# (python3 checks/mkanchors.py).  When a function owned by property X differs from the lock, X's check runs with an
+# ESCALATED correspondence budget (run.escalate, a factor) and records run.anchor_drift in its evidence.  A drift is NEVER an
+# alarm by itself, and a failure of this machinery is a note, not a violation.
+
+ANCHOR_MAP = os.path.join(VERIF, "checks", "anchors.json")
+ANCHOR_LOCK = os.path.join(VERIF, "checks", "anchors.lock.json")
+ESCALATE = 4
+
+
+def anchor_digests():
+    """{key: {"digest", "props"}} for VERIF_REPO, or (None, why)."""
+    okb, log = go_build(["anchors"])
+    if not okb:
+        return None, "anchors tool does not build: " + log[-300:]
+    rc, out = sh([os.path.join(BIN, "anchors"), "-repo", REPO, "-map", ANCHOR_MAP], timeout=120)
+    if rc != 0:
+        return None, "anchors tool failed: " + out[-300:]
+    try:
+        return json.loads(out), ""
+    except ValueError as e:
+        return None, "anchors tool output unreadable: %r" % e
+
+
+def anchor_drift(pid):
+    """Names (file::function) owned by property pid whose digest differs from the lock (changed, new or gone).
+    Returns (list, note)."""
+    if not os.path.exists(ANCHOR_LOCK):
+        return [], "no checks/anchors.lock.json"
+    cur, why = anchor_digests()
+    if cur is None:
+        return [], why
+    try:
+        lock = json.load(open(ANCHOR_LOCK)).get("digests", {})
+    except (OSError, ValueError) as e:
+        return [], "lock unreadable: %r" % e
+    drift = []
+    for k, v in cur.items():
+        if pid in v.get("props", []) and lock.get(k, {}).get("digest") != v["digest"]:
+            drift.append(k + (" (new)" if k not in lock else " (absent)" if v["digest"] == "absent" else ""))
+    for k, v in lock.items():
+        if pid in v.get("props", []) and k not in cur:
+            drift.append(k + " (gone)")
+    return sorted(drift), ""
 
 
 # --------------------------------------------------------------------------- findings / reporting
@@ -278,6 +607,25 @@ class Run:
         self.assumptions = []
         self.notes = []
         self.findings = [f for f in known_findings() if f["property"] == pid and f["kind"] == "finding"]
+        # anchor drift: set by detect_drift() (called by ./check); a check scales its correspondence budget with
+        # run.escalate (1 = the functions the property's model mirrors are those of the pinned tree)
+        self.anchor_drift = []
+        self.escalate = 1
+
+    def detect_drift(self):
+        try:
+            self.anchor_drift, note = anchor_drift(self.pid)
+        except Exception as e:          # never an alarm
+            self.anchor_drift, note = [], "anchor drift detection crashed: %r" % e
+        if note:
+            self.notes.append("anchor drift not evaluated: " + note)
+        forced = os.environ.get("VERIF_ESCALATE")
+        self.escalate = int(forced) if forced and forced.isdigit() and int(forced) >= 1 else (ESCALATE if self.anchor_drift else 1)
+        return self.escalate
+
+    def scaled(self, n):
+        """A correspondence budget (number of random cases / scenarios) under the current escalation."""
+        return int(n) * self.escalate
 
     def replay_path(self, tag):
         d = os.path.join(VERIF, "replays")
@@ -308,6 +656,8 @@ class Run:
         }
         if self.notes:
             ev["coverage"]["notes"] = self.notes
+        ev["coverage"]["anchor_drift"] = self.anchor_drift
+        ev["coverage"]["budget_escalation_factor"] = self.escalate
         ev["coverage"]["known_findings_printed"] = [k for k, _ in self.known_hits]
         ev["coverage"]["violation_keys"] = [v[0] for v in self.violations]
         os.makedirs(os.path.join(VERIF, "evidence"), exist_ok=True)
@@ -340,7 +690,9 @@ def proof_leg(run, prop_file, proof_files, trusted_extra=()):
         NPROC, os.path.basename(prop_file))
     cov["proof_files"] = [prop_file] + list(proof_files)
     tb = ["Coq 8.16.1 kernel (coqc); vm_compute used, native_compute not used",
-          "no Axiom/Parameter/Admitted/admit in the development (audited by grep on every run)"]
+          "no Axiom/Parameter/Admitted/admit/give_up/Program/Equations, no Extract Constant/Inductive, no ExtrOcaml* but Basic, no "
+          "Primitive/Register/Declare ML Module, no extra coqc flags in the development (audited by grep on every run); a stdlib "
+          "axiom would be accepted only if the claim's note names it"]
     tb += list(trusted_extra)
     mine = set([prop_file] + [f for f in proof_files])
     # a property is affected by a failed file only if it depends on it (declared files + gen/)
@@ -368,8 +720,10 @@ def proof_leg(run, prop_file, proof_files, trusted_extra=()):
     cov["theorems"] = a["theorems"]
     cov["print_assumptions"] = {"closed_under_global_context": a["closed"], "axioms": a["axioms"],
                                 "theorems_printed": len(a["printed"])}
-    bad_ax = [x for x in a["axioms"] if x.split(".")[-1] not in ALLOWED_AXIOMS and x not in ALLOWED_AXIOMS]
-    if not a["ok"] or a["unprinted"] or bad_ax or (not a["axioms"] and a["closed"] < len(a["printed"])):
+    bad_ax = axioms_not_allowed(run.pid, a["axioms"])
+    # every printed theorem is either closed or has an Axioms block all of whose entries are allowed-and-named
+    if not a["ok"] or a["unprinted"] or bad_ax or a["closed"] + a["axiom_blocks"] < len(a["printed"]) \
+            or (a["axiom_blocks"] and not a["axioms"]):
         cov["discharged"] = 0
         cov["trusted_base"] = tb
         run.violation("assumptions:" + ",".join(bad_ax or a["unprinted"] or ["coqc"]),
